@@ -159,6 +159,8 @@ def _main(prop, args, seed, t0):
     for s in subs:
         ps = per_sub[s.name]
         for lab, frac in s.floors.items():
+            if ps['excluded_buckets'] or ps['excluded_known']:
+                continue  # a failing class was excluded by construction: the distribution is no longer the generator's
             if ps['evaluations'] >= 50 and ps['labels'].get(lab, 0) < frac * ps['evaluations'] and not ps['budget_skipped']:
                 raise core.HarnessError(f'{prop}/{s.name}: label {lab!r} below its floor {frac}: '
                                         f'{ps["labels"].get(lab, 0)}/{ps["evaluations"]}')
